@@ -458,9 +458,13 @@ func (k Keeper) addGrant(
 	va.VestingPeriods = newVestingPeriods
 	va.OriginalVesting = va.OriginalVesting.Add(grantCoins...)
 
-	// DF rounds out to current delegated
+	// DF rounds out to current delegated, but never below what has been tracked:
+	// coins lost to slashing stay tracked as delegated (as in the SDK), otherwise
+	// the locked amount would exceed what the account can still hold
+	bondDenom := k.stakingKeeper.BondDenom(ctx)
+	trackedAmt := va.DelegatedFree.AmountOf(bondDenom).Add(va.DelegatedVesting.AmountOf(bondDenom))
 	va.DelegatedVesting = sdk.NewCoins()
-	va.DelegatedFree = sdk.NewCoins(sdk.NewCoin(k.stakingKeeper.BondDenom(ctx), delegatedAmt))
+	va.DelegatedFree = sdk.NewCoins(sdk.NewCoin(bondDenom, sdk.MaxInt(trackedAmt, delegatedAmt)))
 	return nil
 }
 
